@@ -72,6 +72,8 @@ class FuncInfo:
         self.decorators = [d.id if isinstance(d, ast.Name) else
                            (d.attr if isinstance(d, ast.Attribute) else '?')
                            for d in node.decorator_list]
+        if 'setter' in self.decorators:
+            self.qualname += '.setter'
 
     @property
     def qual(self):
